@@ -515,3 +515,51 @@ Proof.
   - reflexivity.
   - replace (lenN enc <=? size_box t) with true by (symmetry; apply N.leb_le; lia). reflexivity.
 Qed.
+
+(* ---------------------------------------------------------------- everything about one box, and a file through Box.Encode *)
+Lemma fixpoint_full bs t : bytes_ok bs = true -> decode bs = Ok (t, []) -> exact_box t = true ->
+  exists enc, raw_box false t = Ok enc /\ encode_w t = Ok enc /\ encode_sw t = Ok enc /\
+    lenN enc = lenN bs /\ lenN enc = size_box t /\
+    decode enc = Ok (norm_box t, []) /\ erase_rsv (norm_box t) = erase_rsv t /\
+    raw_box false (norm_box t) = Ok enc /\ encode_w (norm_box t) = Ok enc /\ encode_sw (norm_box t) = Ok enc.
+Proof.
+  intros Hok H Hex. destruct (fixpoint _ _ Hok H Hex) as (enc & He & Hl & Hs & Hd & Her & Hn).
+  destruct (fixpoint_api _ _ Hok H Hex) as (enc' & Hw & Hsw & _ & _ & Hw' & Hsw').
+  assert (enc' = enc). { unfold encode_w in Hw. rewrite He in Hw. destruct (enc_fits t && caps_ok t); [now injection Hw|discriminate]. }
+  subst enc'. exists enc. repeat split; assumption.
+Qed.
+
+(* File.Encode: `for _, b := range f.Children { b.Encode(w) }` *)
+Fixpoint encode_seq_w (ts : list mbox) : res (list N) :=
+  match ts with [] => Ok [] | t :: r => rcat (encode_w t) (encode_seq_w r) end.
+
+Lemma encode_seq_w_fits ts : forallb (fun t => enc_fits t && caps_ok t) ts = true -> encode_seq_w ts = encode_seq false ts.
+Proof.
+  induction ts as [|t r IH]; [reflexivity|]. cbn [forallb encode_seq_w encode_seq]. intros H. apply andb_true_iff in H.
+  destruct H as [Ht Hr]. rewrite (IH Hr). unfold encode_w. rewrite Ht. destruct (raw_box false t); reflexivity.
+Qed.
+
+Lemma seq_fits f : forall bs ts, bytes_ok bs = true -> decode_seq f bs = Ok ts -> forallb exact_box ts = true ->
+  forallb (fun t => enc_fits t && caps_ok t) ts = true.
+Proof.
+  induction f as [|f IH]; intros bs ts Hok H Hex; cbn [decode_seq] in H; [discriminate|].
+  destruct bs as [|b0 bs0]; [injection H as <-; reflexivity|]. set (bs := b0 :: bs0) in *.
+  destruct (decode bs) as [[t r]| | |] eqn:Ed; try discriminate.
+  destruct (decode_seq f r) as [ts'| | |] eqn:Es; try discriminate. injection H as <-.
+  cbn [forallb] in *. apply andb_true_iff in Hex. destruct Hex as [Ht Hts].
+  unfold decode in Ed. destruct (proj1 (tree_both _) _ _ _ Hok Ed Ht) as (_ & _ & _ & Hokr).
+  destruct (proj1 (fits_all _) _ _ _ Hok Ed Ht) as [H1 H2]. now rewrite H1, H2, (IH _ _ Hokr Es Hts).
+Qed.
+
+Lemma fits_norm_all ts : forallb (fun t => enc_fits t && caps_ok t) (map norm_box ts) = forallb (fun t => enc_fits t && caps_ok t) ts.
+Proof. induction ts as [|t r IH]; [reflexivity|]. cbn [map forallb]. now rewrite enc_fits_norm, caps_ok_norm, IH. Qed.
+
+Lemma file_fixpoint_full bs ts : bytes_ok bs = true -> decode_file bs = Ok ts -> forallb exact_box ts = true ->
+  exists enc, encode_seq false ts = Ok enc /\ encode_seq_w ts = Ok enc /\ lenN enc = lenN bs /\
+    decode_file enc = Ok (map norm_box ts) /\ encode_seq false (map norm_box ts) = Ok enc /\ encode_seq_w (map norm_box ts) = Ok enc.
+Proof.
+  intros Hok H Hex. destruct (file_fixpoint _ _ Hok H Hex) as (enc & He & Hl & Hd & Hn).
+  unfold decode_file in H. pose proof (seq_fits _ _ _ Hok H Hex) as Hf.
+  exists enc. rewrite (encode_seq_w_fits _ Hf), (encode_seq_w_fits (map norm_box ts)) by (now rewrite fits_norm_all).
+  repeat split; assumption.
+Qed.
